@@ -1171,6 +1171,9 @@ class LangServer:
         # Intrinsics do not have implementations we can access
         if isinstance(var_obj, Intrinsic):
             return None
+        # Top-level objects (modules, programs, ...) have no enclosing scope
+        if var_obj.parent is None:
+            return None
         # Construct implementation reference
         if var_obj.parent.get_type() == CLASS_TYPE_ID:
             impl_obj = var_obj.link_obj
